@@ -94,17 +94,17 @@ func (s *Sim) Dump() []string {
 	}
 	it.Close()
 
-	// bank: actors + module accounts, tracked denominations, non-zero only
-	tracked := [][]byte{DepositAddr, FeeCollectorAddr, DistrAddr, SwapAddr}
-	tracked = append(tracked, s.Actors...)
-	for _, a := range tracked {
-		for _, d := range s.Denoms {
-			b := s.App.BankKeeper.GetBalance(ctx, a, d)
-			if !b.Amount.IsZero() {
-				out = append(out, fmt.Sprintf("S bank %s %s %s", hx(a), d, b.Amount))
-			}
-		}
+	// bank: every account, tracked denominations, non-zero only
+	trackedDenom := map[string]bool{}
+	for _, d := range s.Denoms {
+		trackedDenom[d] = true
 	}
+	s.App.BankKeeper.IterateAllBalances(ctx, func(a sdk.AccAddress, c sdk.Coin) bool {
+		if trackedDenom[c.Denom] && !c.Amount.IsZero() {
+			out = append(out, fmt.Sprintf("S bank %s %s %s", hx(a), c.Denom, c.Amount))
+		}
+		return false
+	})
 	for _, d := range s.Denoms {
 		sup := s.App.BankKeeper.GetSupply(ctx, d)
 		if !sup.Amount.IsZero() {
